@@ -1,5 +1,5 @@
 //@ unit U-SFMQ
-//@ props C05 C18
+//@ props C05 C18 C11
 //@ verus-args --rlimit 100
 //@ gsubst `PathBuf` => `VxPathBuf` :: R11 stub type (std::path::PathBuf; never inspected by the function under proof)
 //@ gsubst `AtomicBool` => `VxAtomicBool` :: R11 stub type (std::sync::atomic::AtomicBool; never inspected)
@@ -144,7 +144,7 @@ impl ShardFileManager {
         ensures
             // soundness (C05): an answer is the in-memory answer, or — the in-memory index having none — the direct-query
             // answer of the first collection (in order) whose outcome is not a miss, truthful under THAT collection's key
-            /*@C05,C18*/ r matches Ok(Some((n, fse))) ==>
+            /*@C05,C18,C11*/ r matches Ok(Some((n, fse))) ==>
                 (ims_query_post(self.mem(), query_hashes@, Some((n, fse))) && truthful_mem(*self.mem()[query_hashes@[0]].0, query_hashes@, n as int, fse))
                 || (ims_query_post(self.mem(), query_hashes@, None)
                     && exists|ci: int| 0 <= ci < self.colls().len()
@@ -154,7 +154,7 @@ impl ShardFileManager {
             // completeness across keys (C18): "not found" means the in-memory index has no entry AND every collection's outcome
             // is a miss (no candidate, or the full-hash confirmation of its candidate failed) — a failed confirmation in one
             // collection never hides a hit in another
-            /*@C05,C18*/ r matches Ok(None) ==>
+            /*@C05,C18,C11*/ r matches Ok(None) ==>
                 ims_query_post(self.mem(), query_hashes@, None)
                 && forall|ci: int| 0 <= ci < self.colls().len() ==> is_miss(#[trigger] outcomes(self.colls(), query_hashes@)[ci]),
             // errors propagate: an error is the error of the first non-miss outcome
